@@ -235,6 +235,58 @@ PROPS.update({
     },
 })
 
+PROPS.update({
+    "C11": {
+        "engine": "c11",
+        "level": "exploration",
+        "profiles": ["release", "checked"],
+        "budget": {"quick": 10, "thorough": 120},
+        "claim": "Random block lists are built through the public constructors and fields (STREAMINFO at field extremes incl. 1-bit and 32-bit depth, rate 0 and 2^20-1, totals to 2^36-1; comments with arbitrary UTF-8, empty and '='-less fields; all 21 picture types; application data; seek tables with trailing placeholders; CD-DA cue sheets imported from generated text up to 99 tracks x 100 indices; non-CD-DA cue sheets with up to 254 tracks and 255/256 indices) and written with write_blocks; when the writer succeeds the reader must accept the output and return equal blocks, and each block's bytes()/total_size() must equal the body length measured by an independent walker. Sections serialised by an independent builder (non-canonical but acceptable encodings: non-zero padding bytes, placeholder points with junk fields) that the reader accepts must be writable again and re-read equal. Lists breaking the single-instance / STREAMINFO-first / 24-bit size rules must be refused with an error (legal boundary lists accepted), never a panic.",
+        "note": "equality is the crate's own PartialEq on Block; sizes are measured by flacref's metadata walker",
+        "technique": "runtime monitoring: round-trip and size-accounting oracles over generated block values, independent walker as size oracle",
+        "design_ref": "DESIGN.md section 4 C11",
+        "rule": "a case = one block list or one independently serialised section; NON-TRIVIAL when it was written and read back (or accepted, re-written and re-read) and compared; DISTINCT by hash of the serialised bytes",
+        "quotas": {
+            "all seven block types written": lambda m: keys(m, "block_type") == 7,
+            "sizes checked for all seven block types": lambda m: keys(m, "sizes_checked") == 7,
+            "rule-breaking and boundary lists": lambda m: keys(m, "rule_case") >= 13,
+            "reader accepted independently serialised sections": lambda m: h(m, "reader_outcome", "accepted") >= 100,
+        },
+    },
+    "C12": {
+        "engine": "c12",
+        "level": "exploration",
+        "profiles": {"quick": ["release", "checked"], "thorough": ["release", "checked", "asan"]},
+        "budget": {"quick": 10, "thorough": 150},
+        "claim": "BlockList::read, read_blocks, read_info and read_block::<T> are driven over hostile metadata sections (inner length/count fields of VORBIS_COMMENT and PICTURE pushed to 0/2^24/2^31/2^32-1, seek tables of illegal shapes, cue sheets with track/index numbers and offsets at their extremes incl. 255/256 and near u64::MAX, reserved block types, lying block-header lengths, truncations, bit-mutated crate-serialised lists, random bytes) under panic / CPU-time / allocation monitors, in release and with overflow checks; on EVERY list that parses every accessor is called (duration, decoded_len, channel_mask, total_samples, md5, cue sheet track_sample_ranges, track_byte_ranges, tracks, display, catalog_number, track_count, lead_in_samples, comment lookups). Cuesheet::parse runs on nearly-valid texts with one perturbed element and on hostile texts with extreme numbers; Picture::new runs on PNG/JPEG/GIF headers with every field at extremes, truncated and random bytes.",
+        "note": "totality is observed, not proved; 'bounded allocation' uses the fixed bound 48 MiB + 64 n from DESIGN.md",
+        "technique": "runtime monitoring + sanitizers: panic/CPU/allocation monitors over grammar-extreme metadata, cue text and image headers; overflow-checked and ASan builds",
+        "design_ref": "DESIGN.md section 4 C12",
+        "rule": "a case = one byte string / cue text / image header; NON-TRIVIAL when the input parsed (so that accessors ran) or, for cue text and images, was accepted; DISTINCT by hash of the input",
+        "quotas": {
+            "each accessor called >= 100 times": lambda m: keys(m, "accessor") >= 14 and min(m["hist"]["accessor"].values()) >= 100,
+            "image sniffers reached past the signature >= 1000 times": lambda m: sum(v for k, v in m["hist"].get("image_sniff", {}).items() if k != "Unsupported") >= 1000,
+            "cue texts accepted and refused": lambda m: h(m, "cue_parse", "accepted") >= 50 and keys(m, "cue_parse") >= 8,
+            ">= 10 distinct metadata error variants": lambda m: keys(m, "error_variant") >= 10,
+        },
+    },
+    "C20": {
+        "engine": "c20",
+        "level": "exploration",
+        "profiles": ["release", "checked"],
+        "budget": {"quick": 8, "thorough": 100},
+        "claim": "A generator emits well-formed cue sheet text (1-99 tracks, optional INDEX 00, up to 100 indices per track, strictly increasing MM:SS:FF positions with minutes far above 99, optional CATALOG quoted/unquoted, ISRC dashed/undashed quoted/unquoted, FLAGS PRE, interleaved REM/TITLE/PERFORMER/FILE lines, indentation, trailing blanks, LF/CRLF, missing final newline) together with the layout it intends, for a stream length that is a whole number of CD sectors; positions are converted by the harness's own ((MM*60+SS)*75+FF)*588. Cuesheet::parse must succeed and report exactly the model's track numbers, index numbers, absolute positions (track offset + index offset), flags, ISRCs, catalog, a lead-out at the stream length and track ranges from INDEX 01 to the next INDEX 01; display() -> parse() must reproduce the track/index layout; the block must survive write_blocks/read. Token separators inside a command are single spaces (documented exclusion).",
+        "note": "model and generator are flacref::cue; multi-space token separators are not generated (the statement says spacing accepted by the format; the crate documents a simple parser)",
+        "technique": "runtime monitoring: grammar-based generator with an independent layout model as oracle",
+        "design_ref": "DESIGN.md section 4 C20",
+        "rule": "a case = one generated cue text; NON-TRIVIAL when it was imported and every field compared; DISTINCT by hash of the text",
+        "quotas": {
+            "all listed features exercised": lambda m: keys(m, "feature") == 6,
+            ">= 100000 index positions compared": lambda m: h(m, "indices_checked") >= 100000,
+        },
+    },
+})
+
 
 # properties not (yet) claimed: id -> reason
 NOT_APPLICABLE = {f"C{n:02d}": "check not built yet (framework under construction; see DESIGN.md section 4 for the planned monitor)" for n in range(1, 21)}
